@@ -15,7 +15,7 @@
 (***************************************************************************)
 EXTENDS LinAlg, Json, Randomization, FiniteSetsExt, SequencesExt
 
-CONSTANTS Tasks,     \* subset of {"m2","m3","m4","m5","roots","ismul","hat","mm"}
+CONSTANTS Tasks,     \* subset of {"m2","m3","m4","m5","roots","cubic","ismul","hat","mm"}
           NRand4, NRand5, \* number of pseudo-random 4x4 / 5x5 matrices
           DoDump
 
@@ -79,6 +79,32 @@ RootChoices ==
   \cup {<<CRe(a)>> : a \in IntRoots}
 Leads == {1, -2, 3}
 
+\* EVERY polynomial a x^3 + b x^2 + c x + d of a coefficient box (a = 0: quadratic, a = b = 0: linear), not only those with
+\* Gaussian-integer roots.  What the roots are is stated by Vieta's relations (the elementary symmetric functions of the
+\* root multiset are -b/a, c/a, -d/a); the stratum is the case analysis of Cardano's method in exact integers:
+\*   depressed cubic t^3 + f t + g with f = F / (3 a^2), g = G / (27 a^3), and the sign of h = g^2/4 + f^3/27 is that of Disc
+CubA == {-2, -1, 0, 1, 2, 3}
+CubBC == (-3)..3
+CubD == (-9)..9
+CubF(p) == 3 * p[1] * p[3] - p[2] * p[2]
+CubG(p) == 2 * p[2] * p[2] * p[2] - 9 * p[1] * p[2] * p[3] + 27 * p[1] * p[1] * p[4]
+CubDisc(p) == CubG(p) * CubG(p) + 4 * CubF(p) * CubF(p) * CubF(p)
+Sgn(x) == IF x > 0 THEN 1 ELSE IF x < 0 THEN -1 ELSE 0
+CubStratum(p) ==
+  IF p[1] = 0 THEN
+     (IF p[2] = 0 THEN "poly/linear"
+      ELSE LET D == p[3] * p[3] - 4 * p[2] * p[4] IN
+           IF D < 0 THEN "poly/quadratic-complex" ELSE IF D = 0 THEN "poly/quadratic-double" ELSE "poly/quadratic-real")
+  ELSE IF CubF(p) = 0 /\ CubG(p) = 0 THEN "poly/cubic-triple"
+  ELSE IF CubDisc(p) < 0 THEN "poly/cubic-three-real"
+  ELSE IF CubDisc(p) = 0 THEN "poly/cubic-double"
+  ELSE IF CubF(p) = 0 THEN (IF Sgn(CubG(p)) * Sgn(p[1]) > 0 THEN "poly/cubic-pure-positive" ELSE "poly/cubic-pure-negative")
+  ELSE "poly/cubic-one-real"
+\* a repeated root of an integer polynomial is rational, n / m with m | lead and n | constant term (or 0)
+HasRationalDoubleRoot(p) == \E m \in 1..3, n \in (-9)..9 :
+     /\ p[1]*n*n*n + p[2]*n*n*m + p[3]*n*m*m + p[4]*m*m*m = 0
+     /\ 3*p[1]*n*n + 2*p[2]*n*m + p[3]*m*m = 0
+
 RootStratum(rs) ==
   LET n == Len(rs) IN
   IF n = 3 /\ rs[1] = rs[2] /\ rs[2] = rs[3] THEN "roots/triple"
@@ -121,6 +147,7 @@ PickFirst ==
      \/ /\ task = "m4" /\ \E A \in Rand4 : M' = A
      \/ /\ task = "m5" /\ \E A \in Rand5 : M' = A
      \/ /\ task = "roots" /\ \E a \in Leads : M' = <<a>>
+     \/ /\ task = "cubic" /\ \E a \in CubA : M' = <<a>>
      \/ /\ task = "ismul" /\ \E a \in Lattice(3, 2) : M' = <<a>>
      \/ /\ task = "hat" /\ \E a \in Lattice(3, 2) : M' = <<a>>
      \/ /\ task = "mm" /\ \E A \in RandomSubset(40, [1..2 -> [1..3 -> E2]]) : M' = A
@@ -137,6 +164,11 @@ Finish ==
              LET p == PFromRoots(CRe(M[1]), rs) IN
              /\ IsRealPoly(p)
              /\ res' = [t |-> "roots", p |-> [k \in DOMAIN p |-> p[k][1]], roots |-> rs, s |-> RootStratum(rs)]
+     \/ /\ task = "cubic"
+        /\ \E b \in CubBC, c \in CubBC, d \in CubD :
+             LET p == <<M[1], b, c, d>> IN
+             /\ ~(M[1] = 0 /\ b = 0 /\ c = 0)
+             /\ res' = [t |-> "cubic", p |-> p, F |-> CubF(p), G |-> CubG(p), disc |-> CubDisc(p), s |-> CubStratum(p)]
      \/ /\ task = "ismul" /\ \E b \in Lattice(3, 2) :
              res' = [t |-> "ismul", a |-> M[1], b |-> b, r |-> IsMult(M[1], b)]
      \/ /\ task = "hat" /\ res' = [t |-> "hat", x |-> M[1], H |-> Hat3(M[1])]
@@ -171,6 +203,24 @@ Horner(p, x) == LET RECURSIVE H(_, _)
 RootsAreRoots == (Done /\ res.t = "roots") =>
      /\ Len(res.p) = Len(res.roots) + 1
      /\ \A i \in DOMAIN res.roots : Horner(res.p, res.roots[i]) = CZero
+\* Vieta on the chosen root multisets (certifies the oracle used for the coefficient box on the cases whose roots are known),
+\* and the Cardano discriminant classifies them the way their multiplicities say
+ESym(rs, k) == CASE k = 1 -> FoldSeq(LAMBDA r, acc : CAdd(acc, r), CZero, rs)
+                 [] k = 2 -> (IF Len(rs) = 2 THEN CMul(rs[1], rs[2])
+                              ELSE CAdd(CAdd(CMul(rs[1], rs[2]), CMul(rs[1], rs[3])), CMul(rs[2], rs[3])))
+                 [] k = 3 -> CMul(CMul(rs[1], rs[2]), rs[3])
+VietaOnChosenRoots == (Done /\ res.t = "roots") =>
+     LET n == Len(res.roots) lead == res.p[1] IN
+     \A k \in 1..n : CMul(CRe(lead), ESym(res.roots, k)) = CRe((IF k % 2 = 1 THEN -1 ELSE 1) * res.p[k + 1])
+DiscriminantOnChosenRoots == (Done /\ res.t = "roots" /\ Len(res.roots) = 3) =>
+     LET rs == res.roots
+         rep == \E i, j \in 1..3 : i < j /\ rs[i] = rs[j]
+         cpx == \E i \in 1..3 : rs[i][2] # 0 IN
+     /\ (CubDisc(res.p) = 0) <=> rep
+     /\ (CubDisc(res.p) > 0) <=> (cpx /\ ~rep)
+     /\ (CubF(res.p) = 0 /\ CubG(res.p) = 0) <=> (rs[1] = rs[2] /\ rs[2] = rs[3])
+\* on the whole coefficient box: the discriminant vanishes exactly when there is a repeated (hence rational) root
+DiscriminantSound == (Done /\ res.t = "cubic" /\ res.p[1] # 0) => ((res.disc = 0) <=> HasRationalDoubleRoot(res.p))
 IsMultLaws == (Done /\ res.t = "ismul") =>
      /\ res.r = IsMult(res.b, res.a)                                   \* symmetric
      /\ (res.r /\ ~IsZeroV(res.a) /\ ~IsZeroV(res.b)) =>
@@ -181,6 +231,7 @@ HatIsCross == (Done /\ res.t = "hat") =>
 Stratum ==
   CASE res.t = "mat" -> (IF res.det = 0 THEN "singular-rank" \o ToString(res.rank) ELSE "n=" \o ToString(res.n))
     [] res.t = "roots" -> res.s
+    [] res.t = "cubic" -> res.s
     [] res.t = "ismul" -> (IF IsZeroV(res.a) \/ IsZeroV(res.b) THEN "ismul/zero" ELSE IF res.r THEN "ismul/multiple" ELSE "ismul/not")
     [] OTHER -> "general"
 
